@@ -498,6 +498,24 @@ def check_getDisplayCompID(rep, prog):
                 h = hex_render(leaf)
                 is_hex4 = h is not None and h["value"] == comp and h["min_digits"] == 4 and h["upper"] and h["prefix"] == ""
                 if is_phyp:
+                    # by evaluation first: the selected alternative is a function of the component id alone
+                    want_txt = (chr(first(c)) + chr(c & 0xFF)) if first(c) != 0 and (c & 0xFF) != 0 else "%04X" % c
+                    try:
+                        # (atoms that are functions of the component id are computed; only the ones about the registry
+                        # state keep the value chosen for this row)
+                        env_h = pelx.with_heap(I, {k_: v_ for k_, v_ in env.items() if k_ not in others})
+                        for a_ in others:
+                            try:
+                                pelx.evaluate(a_, env_h)
+                            except Exception:
+                                env_h[a_] = env[a_]
+                        got_txt = pelx.evaluate(r, env_h)
+                    except Exception:
+                        got_txt = None
+                    if got_txt is not None:
+                        if got_txt != want_txt:
+                            bad = bad or ("PHYP component 0x%04X should be shown as %r, summary gives %r" % (c, want_txt, got_txt))
+                        continue
                     if first(c) != 0 and (c & 0xFF) != 0:
                         okk = False
                         if isinstance(leaf, Op) and leaf.op == "concat" and len(leaf.args) == 2 and \
